@@ -4,6 +4,8 @@
 # usage: tools/test_mutant.sh <patch.diff> [tier] [Cxx ...]
 set -u
 cd "$(dirname "${BASH_SOURCE[0]}")/.." || exit 2
+# one seeded change at a time: /repo's working tree and /verif/.build are shared
+mkdir -p .build; exec 9>.build/mutant.lock; flock 9
 patch="$1"; shift
 tier="${1:-quick}"; [ $# -gt 0 ] && shift
 checks=("$@"); [ ${#checks[@]} -eq 0 ] && checks=(C01 C02 C03 C04 C05 C06 C07 C08 C09 C10 C11 C12 C13 C14 C15 C16 C17 C18 C19)
